@@ -11,7 +11,6 @@ import (
 	"github.com/buildbuildio/pebbles/gqlerrors"
 	"github.com/buildbuildio/pebbles/planner"
 	"github.com/buildbuildio/pebbles/requests"
-	"github.com/gobwas/ws/wsutil"
 )
 
 type subscriptionEntry struct {
@@ -163,7 +162,7 @@ func (se *subscriptionEntry) Listen(conn net.Conn) {
 				return
 			}
 			common.VerifPoint(se.vid, "se.listen.write")
-			if err := wsutil.WriteServerText(conn, bResp); err != nil {
+			if err := writeServerText(conn, bResp); err != nil {
 				return
 			}
 		case <-se.closeCh:
